@@ -174,6 +174,7 @@ pub fn list_bounded_default<'text: 'a, 'a, Sc, F, X: 'a, A>(
     }));
     move |mut lexer, ctx| {
         let _trace_span = span!(Level::DEBUG, "list_*").entered();
+        let had_recover_state = lexer.recover_state().is_some();
 
         let mut vals = match high {
             // Do empty parse if requested.
@@ -261,7 +262,9 @@ pub fn list_bounded_default<'text: 'a, 'a, Sc, F, X: 'a, A>(
 
         // We should be stable after each value parse, so no further recovery
         // should be needed after finishing the list.
-        debug_assert!(lexer.recover_state().is_none());
+        // The list's own recoveries are all stabilized; only a recover state
+        // the lexer already carried on entry may remain.
+        debug_assert!(had_recover_state || lexer.recover_state().is_none());
 
         if vals.len() < low {
             let parse_error = Box::new(RepeatCountError {
